@@ -104,4 +104,24 @@ _Bool g_fixed; int g_prec, g_base, g_vals;
 #define LC_K_hdr_stream_format_7 LC_STREAM
 #define LC_K_hdr_stream_format_8 LC_STREAM
 #define LC_K_hdr_stream_format_9 LC_STREAM
+#define LC_K_pdfs_hdr_stream_format_0 LC_STREAM
+#define LC_K_pdfs_hdr_stream_format_1 LC_STREAM
+#define LC_K_pdfs_hdr_stream_format_2 LC_STREAM
+#define LC_K_pdfs_hdr_stream_format_3 LC_STREAM
+#define LC_K_pdfs_hdr_stream_format_4 LC_STREAM
+#define LC_K_pdfs_hdr_stream_format_5 LC_STREAM
+#define LC_K_pdfs_hdr_stream_format_6 LC_STREAM
+#define LC_K_pdfs_hdr_stream_format_7 LC_STREAM
+#define LC_K_pdfs_hdr_stream_format_8 LC_STREAM
+#define LC_K_pdfs_hdr_stream_format_9 LC_STREAM
+#define LC_K_pdfs_hdr_stream_format_10 LC_STREAM
+#define LC_K_pdfs_hdr_stream_format_11 LC_STREAM
+#define LC_K_pdfs_hdr_stream_format_12 LC_STREAM
+#define LC_K_pdfs_hdr_stream_format_13 LC_STREAM
+#define LC_K_pdfs_hdr_stream_format_14 LC_STREAM
+#define LC_K_pdfs_hdr_stream_format_15 LC_STREAM
+#define CONTRACT_K_pdfs_hdr_stream_format                                                                            \
+  __CPROVER_requires(g_fixed == 0 && g_prec == 6 && g_base == 10 && g_vals == 0)                                       \
+  __CPROVER_assigns(g_fixed, g_prec, g_base, g_vals)                                                                   \
+  __CPROVER_ensures(1)
 #endif
